@@ -3,8 +3,8 @@
 #  (a) applies, (b) passes the existing suite, (c) makes demo<i> fail, (d) demo<i> passes without it.
 # Writes /verif/seeded/<prop>-<i>/{patch.diff,demo.*,meta.json} when all confirmed.
 set -u
-P=$1; I=$2
-SRC=/tmp/mut/$P/out
+P=$1; I=$2; BASE=${3:-/tmp/mut}; OUT=${4:-$I}
+SRC=$BASE/$P/out
 WT=/tmp/mut/verify_$P
 export CARGO_NET_OFFLINE=true
 export CARGO_TARGET_DIR=/tmp/mut/verify_target_$P
@@ -27,7 +27,7 @@ fi
 git checkout -q -- . && git clean -fdq
 echo "$P-$I: demo_clean_rc=$clean_rc demo_mut_rc=$mut_rc suite_rc=$suite_rc"
 if [ $clean_rc -eq 0 ] && [ $mut_rc -ne 0 ] && [ $suite_rc -eq 0 ]; then
-  D=/verif/seeded/$P-$I; mkdir -p $D
+  D=/verif/seeded/$P-$OUT; mkdir -p $D
   cp $SRC/patch$I.diff $D/patch.diff; cp $demo $D/demo.$ext
   python3 - <<PY
 import json
